@@ -18,7 +18,6 @@ input:
              sum_likelihoods J^T F J  (J by autodiff, F closed-form Fisher metric)
 """
 import json
-import os
 
 import numpy as np
 
@@ -423,8 +422,12 @@ def run(case):
         f = fails[0]
         c = culprit(case)
         cop = c if X.is_leaf(c) else c[0]
+        # key = every failing check x every failing API x dtype x smallest failing subtree's root operator, so
+        # that an additional failure of the same operator is still reported as new
+        checks = "+".join(sorted({x.check for x in fails}))
+        apis = "+".join(sorted({x.api for x in fails}))
         return bad("%s: %s [%s input, tree %s]" % (f.check, f.msg.split("\n")[0], dts, X.tree_str(t)),
-                   finding_key="%s|%s|%s|%s" % (f.check, f.api, dts, cop),
+                   finding_key="%s|%s|%s|%s" % (checks, apis, dts, cop),
                    detail=dict(tree=X.tree_str(t), culprit=X.tree_str(c), fails=[repr(x) for x in fails][:8]),
                    stats=stats)
     ops = X.tree_ops(t)
